@@ -59,7 +59,7 @@ def exhaustive(chk, tmp, prop):
         chk.add_tlc(f"Walker exhaustive {name}: all DAGs <= {n} nodes x selections x failure sets x fail-fast x workers<= {mw}, ext-cancel={ext}",
                     res, invariants=INVS_BY_PROP[prop].split(), action_properties=props.split(), deadlock_checked=True)
     if prop in ("C03", "C05"):
-        nn = 4 if quick else 5
+        nn = 4      # (5 nodes: 13 minutes; the refinement itself is checked on the <= 3-node families)
         cfg = (f"SPECIFICATION MCSpec\nCONSTANTS\n  N = {nn}\n  MaxWorkers = 2\n  XNodes = {{{', '.join(str(i) for i in range(1, nn + 1))}}}\n"
                "INVARIANTS XDepsFirst XBound XOnlyFallibleFail\nPROPERTIES XNoCommandAfterStop\nCHECK_DEADLOCK FALSE\n")
         res = core.tlc(os.path.join(tmp, "ex_abs"), "ExecutorMC.tla", "x.cfg", timeout=1800, files={"x.cfg": cfg}, heap="16g")
